@@ -79,3 +79,38 @@ Proof.
   intros n w stk a inp' reds q'.
   apply (run_never_shifts_a_bad_token g aut (start_user g) T H1 H2 H3 H4 H5 H6 Eb Hcert Hprod).
 Qed.
+
+(* C04 from the text: every cell of the emitted matrix is the resolution of the candidates of that cell (shift, reductions with
+   the lookahead), by the precedences read from the file *)
+From YG Require Import PipelineCell PipelineConds.
+Theorem text_cell s b t : generate_text s = GOk b t ->
+  forall q a, q < length (t_aut t) -> a < gi_nsyms (b_gi b) ->
+  dense_action (length (t_aut t)) (t_dense t) q a =
+  match resolve (candidates (gi_rules (b_gi b)) (t_aut t) (la_lookup (t_la t)) (sprec_of (b_gi b)) (rprec_of (b_gi b)) q a) with
+  | Some (w, _) => decode (c_kind w)
+  | None => Error
+  end.
+Proof.
+  intros H. pose proof (text_wf s b t H) as Hwf.
+  apply (pipeline_cell (b_gi b) (wf_no_start_in_rhs _ Hwf) (wf_rule0_lhs _ Hwf) (wf_no_eof_in_rhs _ Hwf) (ex_intro _ _ (wf_rule0_rhs _ Hwf)) t (text_tables s b t H)).
+Qed.
+
+(* C05 from the text: the packed lookups equal the cells of the matrix as soon as no goto column can land on a negative slot
+   (one boolean condition on the offset vector, evaluated on the arrays of every run); and an unknown token code is a syntax
+   error in every state (C11) *)
+Theorem text_packed_agrees s b t : generate_text s = GOk b t ->
+  (forall q, q < length (t_aut t) -> (0 <= nth q (p_off (t_packed t)) 0 + Z.of_nat (S (gi_nterm (b_gi b))))%Z) ->
+  packed_agrees (b_gi b) t.
+Proof.
+  intros H. pose proof (text_wf s b t H) as Hwf. pose proof (text_tables s b t H) as Ht.
+  apply (packed_agrees_from_offsets (b_gi b) (wf_no_start_in_rhs _ Hwf) (wf_rule0_lhs _ Hwf) (wf_no_eof_in_rhs _ Hwf) (wf_rule0_rhs _ Hwf)
+           (wf_eof_terminal _ Hwf) (wf_productive_all _ Hwf (tables_productive _ t Ht)) (wf_nsyms _ Hwf) t Ht).
+Qed.
+
+Theorem text_unknown_code_is_error s b t : generate_text s = GOk b t ->
+  forall q, q < length (t_aut t) -> dense_action (length (t_aut t)) (t_dense t) q 0 = Error.
+Proof.
+  intros H. pose proof (text_wf s b t H) as Hwf. pose proof (text_tables s b t H) as Ht.
+  apply (unknown_code_is_error (b_gi b) (wf_no_start_in_rhs _ Hwf) (wf_rule0_lhs _ Hwf) (wf_no_eof_in_rhs _ Hwf) (wf_rule0_rhs _ Hwf)
+           (wf_eof_terminal _ Hwf) (wf_productive_all _ Hwf (tables_productive _ t Ht)) (wf_nsyms _ Hwf) t Ht).
+Qed.
